@@ -2,7 +2,7 @@
    `orc` is the blob oracle (vellum / roaring / snappy decoding done by the harness co-process). *)
 From Coq Require Import List NArith ZArith Bool.
 Import ListNotations.
-Require Import Sx Bytes Kernel Footer Ref Spec Wire Layout SpecMerge Iter Iter1 Automata Dict.
+Require Import Sx Bytes Kernel Footer Ref Spec Wire Layout SpecMerge Iter Iter1 Automata Dict Pool BuildReuse.
 Open Scope N_scope.
 
 (* ---- C20: (1 ops) with op 0 = AddRef, 1 = DecRef/Close ---- *)
@@ -177,6 +177,52 @@ Definition h_dict (orc : sx -> sx) (args : list sx) : sx :=
   | _ => sxerr 73
   end.
 
+(* ---- C11: (a calls) with call 0 = disciplined reader call, 1 = the pinned early-stopped visit;
+   answer: the largest number of simultaneous copies of one scratch object after the history ---- *)
+Definition h_pool (args : list sx) : sx :=
+  match args with
+  | [cs] => match getLA cs with
+            | Some l =>
+                match run_calls Pool.init 1%nat (map (fun n => if n =? 0 then Disciplined else EarlyVisitPinned) l) with
+                | Some s => A (N.of_nat (max_copies s))
+                | None => sxerr 101
+                end
+            | None => sxerr 102
+            end
+  | _ => sxerr 103
+  end.
+
+(* ---- C10: (18 events), event = (ok nf np ((docs) ...)) with doc = ((field dv (pid ...)) ...);
+   every successful build puts its reset working memory back and the next build reuses it ---- *)
+Definition adoc_of_sx (s : sx) : option adoc :=
+  match s with
+  | L fis => mapo (fun fi => match fi with
+                             | L [A f; dv; pids] =>
+                                 match getBool dv, getLA pids with
+                                 | Some dv', Some ps => Some (N.to_nat f, dv', map N.to_nat ps)
+                                 | _, _ => None end
+                             | _ => None end) fis
+  | _ => None
+  end.
+Definition event_of_sx (s : sx) : option event :=
+  match s with
+  | L [ok; A f; A p; L ds] =>
+      match getBool ok, mapo adoc_of_sx ds with
+      | Some ok', Some ds' => Some (Build (Some 0%nat) {| nf := N.to_nat f; np := N.to_nat p; docs := ds' |} ok')
+      | _, _ => None
+      end
+  | _ => None
+  end.
+Definition h_reuse (args : list sx) : sx :=
+  match args with
+  | [L es] =>
+      match mapo event_of_sx es with
+      | Some es' => L (map (fun o => L [L (map sxb (fst o)); L (map (fun l => sxLA (map N.of_nat l)) (snd o))]) (hrun [] es'))
+      | None => sxerr 121
+      end
+  | _ => sxerr 122
+  end.
+
 Definition handle (orc : sx -> sx) (req : sx) : sx :=
   match req with
   | L (A k :: args) =>
@@ -187,6 +233,8 @@ Definition handle (orc : sx -> sx) (req : sx) : sx :=
       else if k =? 5 then h_spec_merge args
       else if k =? 6 then h_iter args
       else if k =? 7 then h_dict orc args
+      else if k =? 10 then h_pool args
+      else if k =? 18 then h_reuse args
       else sxerr 0
   | _ => sxerr 0
   end.
